@@ -258,22 +258,38 @@ def iteration_constructs(root):
             g = n.generators[0]
             out.append({"kind": "comp", "target": g.target, "iter": g.iter, "ifs": list(g.ifs), "elts": [n.elt], "node": n})
         elif isinstance(n, ast.For):
-            elts = []
-            ifs = []
-            body = n.body
-            # a single guarding if around the production counts as a filter
-            if len(body) == 1 and isinstance(body[0], ast.If) and not body[0].orelse:
-                ifs = [body[0].test]
-                body = body[0].body
-            for st in body:
+            prods = []      # (filters, produced expression)
+
+            def production(st):
                 if isinstance(st, ast.Expr) and isinstance(st.value, ast.Yield) and st.value.value is not None:
-                    elts.append(st.value.value)
-                elif isinstance(st, ast.Expr) and isinstance(st.value, ast.Call) and isinstance(st.value.func, ast.Attribute) \
+                    return st.value.value
+                if isinstance(st, ast.Expr) and isinstance(st.value, ast.Call) and isinstance(st.value.func, ast.Attribute) \
                         and st.value.func.attr in ("append", "add") and len(st.value.args) == 1:
-                    elts.append(st.value.args[0])
-                elif isinstance(st, ast.AugAssign) and isinstance(st.op, ast.Add) and isinstance(st.value, ast.List) and len(st.value.elts) == 1:
-                    elts.append(st.value.elts[0])
-            if elts:
+                    return st.value.args[0]
+                if isinstance(st, ast.AugAssign) and isinstance(st.op, ast.Add) and isinstance(st.value, ast.List) and len(st.value.elts) == 1:
+                    return st.value.elts[0]
+                return None
+
+            def scan(body, ifs):
+                ifs = list(ifs)
+                for st in body:
+                    e = production(st)
+                    if e is not None:
+                        prods.append((tuple(ifs), e))
+                    elif isinstance(st, ast.If):
+                        skip = len(st.body) == 1 and isinstance(st.body[0], ast.Continue)
+                        if skip and not st.orelse:
+                            # `if c: continue` filters everything that follows
+                            ifs.append(ast.UnaryOp(op=ast.Not(), operand=st.test))
+                        else:
+                            scan(st.body, ifs + [st.test])
+                            if st.orelse:
+                                scan(st.orelse, ifs + [ast.UnaryOp(op=ast.Not(), operand=st.test)])
+            scan(n.body, [])
+            groups = {}
+            for ifs, e in prods:
+                groups.setdefault(tuple(id(x) for x in ifs), (list(ifs), []))[1].append(e)
+            for ifs, elts in groups.values():
                 out.append({"kind": "for", "target": n.target, "iter": n.iter, "ifs": ifs, "elts": elts, "node": n})
     return out
 
@@ -293,3 +309,53 @@ def guard_chain(node, stop=None):
         n = parent(n)
     out.reverse()
     return out
+
+
+def elementwise(target, it, index="_i"):
+    """Bindings of one `for <target> in <it>` as expressions in a common index: `for i, x in enumerate(X)` gives
+    {i: _i, x: X[_i]}, `for a, b in zip(A, B)` gives {a: A[_i], b: B[_i]}, `for x in X` gives {x: X[_i]},
+    `for i in range(len(X))` gives {i: _i}.  None when the loop is not of these parallel forms."""
+    def at(seq):
+        return ast.Subscript(value=clone(seq), slice=ast.Name(id=index, ctx=ast.Load()), ctx=ast.Load())
+    idx = ast.Name(id=index, ctx=ast.Load())
+    if isinstance(it, ast.Call) and isinstance(it.func, ast.Name) and not it.keywords:
+        fn = it.func.id
+        if fn == "enumerate" and len(it.args) == 1 and isinstance(target, (ast.Tuple, ast.List)) and len(target.elts) == 2 \
+                and isinstance(target.elts[0], ast.Name):
+            inner = elementwise(target.elts[1], it.args[0], index)
+            if inner is None:
+                return None
+            inner[target.elts[0].id] = idx
+            return inner
+        if fn == "zip" and isinstance(target, (ast.Tuple, ast.List)) and len(target.elts) == len(it.args):
+            out = {}
+            for t, a in zip(target.elts, it.args):
+                sub = elementwise(t, a, index)
+                if sub is None:
+                    return None
+                out.update(sub)
+            return out
+        if fn == "range" and len(it.args) == 1 and isinstance(target, ast.Name):
+            return {target.id: idx}
+        if fn in ("enumerate", "zip", "range", "reversed", "sorted", "map", "filter"):
+            return None
+    if isinstance(target, ast.Name):
+        return {target.id: at(it)}
+    return None
+
+
+def elementwise_elt(comp, index="_i"):
+    """element expression of a one-generator comprehension rewritten over the common index, or None"""
+    if len(comp.generators) != 1 or comp.generators[0].ifs:
+        return None
+    g = comp.generators[0]
+    m = elementwise(g.target, g.iter, index)
+    if m is None:
+        return None
+
+    class T(ast.NodeTransformer):
+        def visit_Name(self, n):
+            if isinstance(n.ctx, ast.Load) and n.id in m:
+                return clone(m[n.id])
+            return n
+    return ast.fix_missing_locations(T().visit(clone(comp.elt)))
